@@ -237,10 +237,11 @@ on_region(Ctx& x)
             for (int i = 0; i < x.nreaders; ++i)
                 if ((uint64_t)o >= need_of(x.rd[i]))
                     who = i;
-            x.c.fail("C02", "write-overlaps-unconsumed", x.rd[who].mapped ? "mapped" : "unconsumed",
-                     "write_map(%zu) handed out [%zu,%zu): byte %zu holds committed offset %lld which reader %d has not consumed (its cursor: %llu, mapped: %d)",
-                     n, off, off + n, q, (long long)o, who, (unsigned long long)need_of(x.rd[who]), (int)x.rd[who].mapped);
-            return;
+            if (x.c.fail_soft("C02", "write-overlaps-unconsumed", x.rd[who].mapped ? "mapped" : "unconsumed",
+                              "write_map(%zu) handed out [%zu,%zu): byte %zu holds committed offset %lld which reader %d has not consumed (its cursor: %llu, mapped: %d)",
+                              n, off, off + n, q, (long long)o, who, (unsigned long long)need_of(x.rd[who]), (int)x.rd[who].mapped))
+                return;
+            break; // another property's run: go on, the readers' own oracles will see the damage
         }
     }
     // statistics / non-trivial classification
@@ -314,8 +315,8 @@ on_map_returned(Ctx& x)
         x.wstate = Ctx::W_IDLE;
         bool legit = x.wn >= x.cap || !x.accepting || x.refused_during_map;
         if (!legit)
-            x.c.fail("C02", "null-without-refusal", "null", "write_map(%zu) returned NULL although %zu < capacity %zu and writes were never refused during the call",
-                     x.wn, x.wn, x.cap);
+            x.c.fail_soft("C02", "null-without-refusal", "null", "write_map(%zu) returned NULL although %zu < capacity %zu and writes were never refused during the call",
+                          x.wn, x.wn, x.cap);
         else if (x.wn < x.cap)
             x.c.cls(CL_REFUSED_NULL);
         x.auto_commit = false;
@@ -433,8 +434,8 @@ before_unmap(Ctx& x, int ri)
     Reader& r = x.rd[ri];
     for (size_t i = 0; i < r.len; ++i)
         if (r.beg[i] != x.committed[(size_t)(r.map_start + i)]) {
-            x.c.fail("C02", "mapped-region-modified", "changed-while-held", "reader %d's mapped region changed at byte %zu (offset %llu) while it was held",
-                     ri, i, (unsigned long long)(r.map_start + i));
+            x.c.fail_soft("C02", "mapped-region-modified", "changed-while-held", "reader %d's mapped region changed at byte %zu (offset %llu) while it was held",
+                          ri, i, (unsigned long long)(r.map_start + i));
             return;
         }
 }
